@@ -185,6 +185,8 @@ pub struct St {
     pub signal_addr: usize,
     pub transparent_mm: bool,
     pub phase: usize,
+    /// no API/ledger logging (long churn runs)
+    pub mute: bool,
 }
 
 pub struct Rt {
@@ -231,6 +233,7 @@ impl St {
             signal_addr: 0,
             transparent_mm: false,
             phase: 0,
+            mute: false,
         }
     }
 
@@ -421,6 +424,12 @@ impl Rt {
         let mut src = st.source.take();
         // a thread that is run alone must finish its call within the bound
         if let Some(s) = src.as_mut() {
+            if let Some((t, _)) = s.solo() {
+                if t >= st.th.len() || st.th[t].status == Status::Finished {
+                    // left over from an earlier phase
+                    s.solo_abort();
+                }
+            }
             if let Some((t, bound)) = s.solo() {
                 if st.th[t].call_ops > bound {
                     let api = st.th[t].in_call.as_ref().and_then(|c| c["api"].as_str()).unwrap_or("").to_string();
@@ -439,7 +448,7 @@ impl Rt {
         }
         if let Some(s) = src.as_ref() {
             if let Some((t, bound)) = s.solo() {
-                if st.th[t].solo_mark.is_none() {
+                if t < st.th.len() && st.th[t].solo_mark.is_none() {
                     st.th[t].solo_mark = Some(bound);
                 }
             }
@@ -507,7 +516,7 @@ impl Rt {
 
     pub fn log_api(&self, v: Value) {
         let mut st = self.lock();
-        if st.abort {
+        if st.abort || st.mute {
             return;
         }
         st.api.push(v);
